@@ -143,6 +143,10 @@ type Op struct {
 type History struct {
 	Kind    string `json:"kind"`
 	Init    []int  `json:"init,omitempty"` // keys of the literal the map starts with (values 100+key)
+	// Dup: keys of Init that the literal (or the host's NewMap argument) mentions twice: first with the value 7, later
+	// with their real value, which wins. In the script the first mention goes through a variable (two equal constant
+	// keys do not compile in Go)
+	Dup     []int  `json:"dup,omitempty"`
 	NilMap  bool   `json:"nil_map,omitempty"`
 	Ops     []Op   `json:"ops"`
 	InFunc  bool   `json:"in_func,omitempty"` // script form: run inside a function (locals) or at top level (globals)
@@ -210,6 +214,13 @@ func genHistory(rt *rapid.T) *History {
 		h.NilMap = true
 	} else {
 		h.Init = rapid.SliceOfNDistinct(rapid.IntRange(0, n-1), 0, n, rapid.ID[int]).Draw(rt, "init")
+		if len(h.Init) > 0 && rx.Chance(rt, "dupkeys", 1, 4) {
+			for _, ki := range h.Init {
+				if rapid.Bool().Draw(rt, "dup") {
+					h.Dup = append(h.Dup, ki)
+				}
+			}
+		}
 	}
 	h.Ops = rapid.SliceOfN(genOp(n, h.NilMap), 1, 40).Draw(rt, "ops")
 	// number the written values so that every write is identifiable
@@ -401,6 +412,9 @@ func runHost(h *History) (f *ev.Failure) {
 		}
 	}()
 	var init []goatlang.Value
+	for _, ki := range h.Dup {
+		init = append(init, k.value(ki), goatlang.Int32(7))
+	}
 	for _, ki := range h.Init {
 		init = append(init, k.value(ki), goatlang.Int32(int32(100+ki)))
 	}
@@ -534,6 +548,10 @@ func script(h *History) string {
 		fmt.Fprintf(&sb, "%svar m map[%s]int\n", ind, k.Name)
 	} else {
 		var items []string
+		for _, ki := range h.Dup {
+			fmt.Fprintf(&sb, "%svar dk%d %s = %s\n", ind, ki, k.Name, k.Keys[ki])
+			items = append(items, fmt.Sprintf("dk%d: 7", ki))
+		}
 		for _, ki := range h.Init {
 			items = append(items, fmt.Sprintf("%s: %d", k.Keys[ki], 100+ki))
 		}
